@@ -590,16 +590,22 @@ func isSuggest(targetT base.T, sig base.Sig) bool {
 		return false
 	}
 
-	if sig.IsPrivate && sig.Class != targetT.DefinedClass {
+	// an object built by `new` carries the Defined* fields of that `new`,
+	// they do not describe the place the cursor is in
+	isContext := targetT.GetType() != base.OBJECT
+
+	if sig.IsPrivate && (!isContext || sig.Class != targetT.DefinedClass) {
 		return false
 	}
 
-	if sig.Class == targetT.DefinedClass && sig.IsStatic == targetT.IsStatic {
-		return true
-	}
+	if isContext {
+		if sig.Class == targetT.DefinedClass && sig.IsStatic == targetT.IsStatic {
+			return true
+		}
 
-	if isParentClass(sig, targetT.DefinedFrame, targetT.DefinedClass, targetT.IsStatic, false, false) {
-		return true
+		if isParentClass(sig, targetT.DefinedFrame, targetT.DefinedClass, targetT.IsStatic, false, false) {
+			return true
+		}
 	}
 
 	if isStaticTarget != sig.IsStatic {
